@@ -43,13 +43,17 @@ def bound(tier):
     return BOUNDS[tier]
 
 
+# attribute names that BEGIN with the letters of an operator keyword
+PATH_PREFIX = ('g', 'organization', 'android', 'notify')
+
+
 def leaf_text(i, kind):
     if kind == 'role':
         return 'role:r%d' % i
     if kind == 'rule':
         return 'rule:q%d' % i
     if kind == 'path':
-        return 'g%d.v:yes' % i
+        return '%s%d.v:yes' % (PATH_PREFIX[i % 4], i)
     if kind == 'lit':
         return "'yes':%%(t%d)s" % i
     if kind == 'clo':
@@ -74,7 +78,8 @@ def realise(kinds, mask):
             if v:
                 creds['roles'].append('r%d' % i)
         elif k == 'path':
-            creds['g%d' % i] = {'v': 'yes' if v else 'no'}
+            creds['%s%d' % (PATH_PREFIX[i % 4], i)] = {'v': 'yes' if v
+                                                       else 'no'}
         elif k in ('clo', 'chi'):
             creds['cK' if k == 'clo' else 'ck'] = {'v': 'yes' if v else 'no'}
         elif k == 'lit':
@@ -287,7 +292,7 @@ def run_LC(cx, job):
 
 MENU = ['', [], '@', '!', 'role:r0', 'role:r0 and rule:q1', 'not role:r1',
         [['role:r0'], ['role:r1', 'role:r2']], "'yes':%(t2)s",
-        'role:r0 or role:r1 and not g3.v:yes',
+        'role:r0 or role:r1 and not notify3.v:yes',
         '(role:r0 and role:r1) or (role:r2 and @)',
         '(role:r0 or role:r1) and not (role:r2 or !)']
 MENU_KINDS = ('role', 'role', 'role', 'path')
@@ -329,7 +334,7 @@ def run_R(cx, job):
                                             mask)
                     creds['roles'] = ['r%d' % i for i in range(3)
                                       if mask >> i & 1]
-                    creds['g3'] = {'v': 'yes' if mask & 8 else 'no'}
+                    creds['notify3'] = {'v': 'yes' if mask & 8 else 'no'}
                     target = {'t2': 'yes' if mask & 4 else 'no'}
                     for name in sorted(src):
                         cx.acc.ev()
